@@ -177,6 +177,11 @@ Theorem C03_multiset_no_cross_boundary : forall (K : carrier) (blocks : list (bl
 Proof. exact multi_events_app. Qed.
 Print Assumptions C03_multiset_no_cross_boundary.
 
+(* the association-list matrix that the correspondence check prints (Model/K03_Exec.v matrix_of) is sumby *)
+Theorem C03_matrix_of : forall (evs : list (event QcK)) r c, matrix_get (matrix_of evs) r c = @sumby QcK evs r c.
+Proof. exact matrix_of_sumby. Qed.
+Print Assumptions C03_matrix_of.
+
 (* ---------------- non-vacuity ---------------- *)
 
 Definition ex_before := mkblock true [2; 2; 2] (kf_geometric (qc 1 2)) None false 0 (qc 1 1).
